@@ -727,3 +727,71 @@ def _cumsum(t, dim, **kw):
 
 TM["cumsum"] = _cumsum
 TF["cumsum"] = _cumsum
+
+
+# ---- sort / argsort: assumed contract of torch.sort (values ordered, a permutation of the input along dim)
+class SortResult(tuple):
+    def __new__(cls, values, indices):
+        return super().__new__(cls, (values, indices))
+
+    @property
+    def values(self):
+        return self[0]
+
+    @property
+    def indices(self):
+        return self[1]
+
+
+_SORT = [0]
+
+
+def _sort(t, dim=-1, descending=False, stable=False):
+    ctx = cur()
+    d = norm_dim(dim, t.rank)
+    n = t.shape[d]
+    _SORT[0] += 1
+    k_ = _SORT[0]
+    nouter = t.rank - 1
+    ints = [z3.IntSort()] * t.rank
+    from .core import sort_of
+
+    S = z3.Function(f"sorted{k_}", *ints, sort_of(t.dtype if t.dtype != "b" else "i"))
+    P = z3.Function(f"sortperm{k_}", *ints, z3.IntSort())
+    Q = z3.Function(f"sortperm_inv{k_}", *ints, z3.IntSort())
+    a = t.snap()
+    dt = t.dtype if t.dtype != "b" else "i"
+    o = [z3.Int(f"so{k_}_{j}") for j in range(nouter)]
+    k, k2 = z3.Int(f"sk{k_}"), z3.Int(f"sk2{k_}")
+    oshape = [s_ for j, s_ in enumerate(t.shape) if j != d]
+    orng = [z3.And(v >= 0, v < zint(m)) for v, m in zip(o, oshape)]
+
+    def full(kk):
+        J = list(o)
+        J.insert(d, kk)
+        return J
+
+    def A(kk):
+        return cast(a(tuple(full(kk))), dt)
+
+    ink = lambda kk: z3.And(kk >= 0, kk < zint(n))
+    ctx.assume(z3.ForAll(o + [k], z3.Implies(z3.And(*orng, ink(k)),
+                                            z3.And(P(*full(k)) >= 0, P(*full(k)) < zint(n), S(*full(k)) == A(P(*full(k))),
+                                                   Q(*full(P(*full(k)))) == k)), patterns=[S(*full(k))]))
+    ctx.assume(z3.ForAll(o + [k], z3.Implies(z3.And(*orng, ink(k)),
+                                            z3.And(Q(*full(k)) >= 0, Q(*full(k)) < zint(n), P(*full(Q(*full(k)))) == k)), patterns=[Q(*full(k))]))
+    cmp = (lambda x, y: x >= y) if descending else (lambda x, y: x <= y)
+    ctx.assume(z3.ForAll(o + [k, k2], z3.Implies(z3.And(*orng, ink(k), ink(k2), k < k2), cmp(S(*full(k)), S(*full(k2)))),
+                         patterns=[z3.MultiPattern(S(*full(k)), S(*full(k2)))]))
+    ctx.notes.append("assumed contract of torch.sort: values ordered, values = input o permutation, indices a bijection")
+    vals = mk(t.shape, dt, lambda I: S(*[zint(x) for x in I]))
+    idxs = mk(t.shape, "i", lambda I: P(*[zint(x) for x in I]))
+    vals.prov = ("sort", {"S": S, "P": P, "Q": Q, "dim": d, "n": n, "src": t})
+    idxs.prov = ("sortidx", {"S": S, "P": P, "Q": Q, "dim": d, "n": n, "src": t})
+    return SortResult(vals, idxs)
+
+
+TM["sort"] = _sort
+TF["sort"] = _sort
+TM["argsort"] = lambda t, dim=-1, descending=False, **kw: _sort(t, dim, descending)[1]
+TF["argsort"] = TM["argsort"]
